@@ -12,6 +12,7 @@ import QiVerif.Driver.C11
 import QiVerif.Driver.C06
 import QiVerif.Driver.C04
 import QiVerif.Driver.C13
+import QiVerif.Driver.C14
 open QiVerif.Driver
 
 /-- parameters handed over by ./check from the regenerated constants -/
@@ -26,6 +27,7 @@ structure DState where
   au : C06.St := {}
   sv : C04.St := {}
   sg : C13.St := {}
+  pr : C14.St := {}
 
 def dispatch (p : Params) (st : DState) (line : String) : DState × String :=
   let ws := words line
@@ -49,6 +51,9 @@ def dispatch (p : Params) (st : DState) (line : String) : DState × String :=
     else if op.startsWith "sv." || op.startsWith "c04." then
       let (s', out) := C04.run st.sv ws
       ({ st with sv := s' }, out)
+    else if op.startsWith "pr." then
+      let (s', out) := C14.run st.pr ws
+      ({ st with pr := s' }, out)
     else if op.startsWith "sg." then
       let (s', out) := C13.run st.sg ws
       ({ st with sg := s' }, out)
